@@ -69,6 +69,38 @@ SPECS = {
 }
 
 
+# rule families that necessarily have at least one instance on a tree where the property holds: if one of
+# them produced nothing, the analyser did not run (or lost its anchor) and the check fails closed
+REQUIRE = {
+    'C03': ['B-APPEND', 'W1a', 'W1b', 'W1c', 'W1d'],
+    'C04': ['R-PRIM'], 'C07': ['R-PRIM'],
+    'C08': ['A-DELEG', 'O1', 'O2', 'O3', 'O4', 'O5'],
+    'C09': ['O2', 'O6', 'O7', 'O8', 'O9'],
+    'C10': ['A-GUARD', 'A-DELEG'],
+    'C12': ['B-PURE', 'B-GUARD-DUP', 'B-GUARD-RM', 'B-NOOP', 'B-BUILD', 'B-APPEND', 'B-DELEG', 'B-CURRENT', 'B-ONCE'],
+    'C17': ['K-NORM'],
+    'C18': ['H-FLOW', 'H-HOST', 'H-TABLE', 'H-SERDE'],
+    'C19': ['N-DET'],
+    'C20': ['V-ORDER', 'V-MAP', 'V-DELTA', 'V-ERR'],
+}
+
+
+# counters of the GEN / WIT engines that cannot be zero when the analysis really ran over the corpus
+REQUIRE_STATS = {
+    'C02': ['cap_accesses', 'cap_layouts', 'layout_records'],
+    'C03': ['layout_records', 'kind:conv'],
+    'C04': ['accessors', 'kind:new', 'kind:unpack', 'disjoint_pairs'],
+    'C05': ['kind:conv'],
+    'C06': ['kind:drop', 'kind:unpack', 'kind:conv', 'kind:new'],
+    'C07': ['cap_accesses', 'dest_checks'],
+    'C11': ['assert_types'],
+    'C14': ['auto_trait_queries'],
+    'C15': ['kind:serialize', 'kind:visit_seq', 'kind:deserialize'],
+    'C16': ['kind:clone'],
+}
+REQUIRE_WITNESSES = {'C11': 40, 'C17': 200}
+
+
 def rule_matches(rule, prefixes):
     return any(rule == p or rule.startswith(p) for p in prefixes)
 
